@@ -1,7 +1,8 @@
 #!/venv/bin/python
 """tools/seedcheck.py <seed-id> <dir with patch.diff + demo.py> <property> [checks...] [--needs "text"]
 Confirms a seeded breaking change (tests still pass, demo fails with / passes without it), runs the given
-checks against it, and files it under /verif/seeded/<seed-id>/ with meta.json.  /repo is restored afterwards."""
+checks against it, and files it under /verif/seeded/<seed-id>/ with meta.json.  /repo is not touched: the patch is applied to a
+scratch copy under /dev/shm that is removed afterwards."""
 import sys, os, subprocess, json, shutil, time
 ROOT = "/verif"
 
@@ -24,34 +25,46 @@ def main():
     for f in ("patch.diff", "demo.py"):
         if os.path.abspath(src) != os.path.abspath(dst):
             shutil.copy(os.path.join(src, f), os.path.join(dst, f))
-    if sh("git -C /repo status --porcelain --untracked-files=no").stdout.strip():
-        print("/repo not clean")
-        return 2
     meta = {"seed": sid, "property": prop, "needs": needs, "ran": []}
-    env = dict(os.environ, PYTHONPATH="/repo/src", PYTHONHASHSEED="0")
-    r = sh("/venv/bin/python demo.py", cwd=dst, env=env, timeout=600)
+    # the change is applied to a scratch copy of /repo's working tree (never to /repo itself, so that checks of the unchanged tree
+    # can run at the same time); tests and demo see it through PYTHONPATH, the checks through FSVERIF_SRC
+    root = "/dev/shm/fsverif-seed-%s-%d" % (sid, os.getpid())
+    shutil.rmtree(root, ignore_errors=True)
+    os.makedirs(root)
+    sh("cp -r /repo/src /repo/tests %s/ ; cp /repo/pyproject.toml /repo/setup.py /repo/setup.cfg /repo/pytest.ini /repo/conftest.py %s/ 2>/dev/null" % (root, root))
+    env0 = dict(os.environ, PYTHONPATH="/repo/src", PYTHONHASHSEED="0")
+    r = sh("/venv/bin/python demo.py", cwd=dst, env=env0, timeout=600)
     meta["demo_without_change_rc"] = r.returncode
-    ap = sh("git -C /repo apply %s" % os.path.join(dst, "patch.diff"))
+    ap = sh("patch -p1 -d %s < %s" % (root, os.path.join(dst, "patch.diff")))
     if ap.returncode != 0:
-        print("patch does not apply:", ap.stderr)
+        print("patch does not apply:", ap.stdout, ap.stderr)
+        shutil.rmtree(root, ignore_errors=True)
         return 2
+    env = dict(os.environ, PYTHONPATH=os.path.join(root, "src"), PYTHONHASHSEED="0", PYTHONDONTWRITEBYTECODE="1")
     try:
-        t = sh("cd /repo && timeout 1200 /venv/bin/python -m pytest -q -p no:cacheprovider --timeout=900 --continue-on-collection-errors 2>&1 | tail -1")
+        t = sh("cd %s && timeout 1200 /venv/bin/python -m pytest -q -p no:cacheprovider --timeout=900 --continue-on-collection-errors tests 2>&1 | tail -1" % root, env=env)
         meta["tests_with_change"] = t.stdout.strip()
         r = sh("/venv/bin/python demo.py", cwd=dst, env=env, timeout=600)
         meta["demo_with_change_rc"] = r.returncode
         meta["demo_with_change_tail"] = (r.stdout + r.stderr)[-400:]
         det = {}
         for c in checks:
-            e2 = dict(os.environ, VERIF_EVIDENCE_DIR="/var/tmp/fsverif-mut-evidence")
+            e2 = dict(os.environ, VERIF_EVIDENCE_DIR="/var/tmp/fsverif-mut-evidence", FSVERIF_SRC=os.path.join(root, "src"),
+                      PYTHONDONTWRITEBYTECODE="1")
             rr = sh("bin/check %s" % c, cwd=ROOT, env=e2, timeout=3000)
             lines = [l for l in rr.stdout.split("\n") if l.startswith("VIOLATION") or l.startswith("  #")]
             det[c] = {"rc": rr.returncode, "violations": sum(1 for l in lines if l.startswith("VIOLATION")),
                       "first": [l[:300] for l in lines[:2]]}
-            meta["ran"].append("bin/check %s -> rc %d" % (c, rr.returncode))
+            for l in lines:
+                if l.startswith("VIOLATION"):
+                    try:
+                        os.remove(l.split("replay=")[1].strip())
+                    except OSError:
+                        pass
+            meta["ran"].append("FSVERIF_SRC=<scratch copy with the patch> bin/check %s -> rc %d" % (c, rr.returncode))
         meta["checks"] = det
     finally:
-        sh("git -C /repo checkout -- .")
+        shutil.rmtree(root, ignore_errors=True)
     meta["confirmed"] = (meta["demo_without_change_rc"] == 0 and meta["demo_with_change_rc"] != 0
                          and meta["tests_with_change"].startswith("70 passed"))
     meta["detected_by"] = [c for c, d in meta["checks"].items() if d["rc"] == 1 and d["violations"] > 0]
